@@ -278,6 +278,7 @@ def run(ctx):
             ctx.disagreements_checked += 1
             ctx.tie_broken("correspondence: marshal model and implementation differ although the specification is met",
                            "%s\nimpl: %s\nmodel: %s" % (line[:2000], li[:1000], lm[:1000]))
+    ngiant = giant(ctx, exe)
     ctx.extra["inconsistent_stream"] = {k: {"inconsistent": v[0], "consistent": v[1]} for k, v in sorted(classes.items())}
     ncat, nmo = len(wg.catalogue()), len(wg.catalogue_marshal_only())
     ctx.rule = ("case = (API: typed push_param MT | dynamic push_old_param of an owned / borrowing / alternating Param tree MP, MPR, MPX | "
@@ -287,15 +288,66 @@ def run(ctx):
                 "params::Variant); values are boundary-biased (empty containers, min/max integers, NaNs, multi-byte UTF-8) and one in four has one "
                 "unencodable leaf; plus every unencodable signature text of wiregen.BAD_SIGS (%d, among them dict entries with 0 / 1 / 3 / 4 types, "
                 "a non-basic key, entries outside an array) in a `g` leaf: bare through every API and inside a random type with a signature leaf. Stream 2 (big, %d cases): length fields >= 64 KiB, strings of 255..70000 bytes, 64..100 containers in one "
-                "array/dict, nesting at the limits. Stream 3 (inconsistent, %d cases): Param trees with a wrong declared element / key / value / "
+                "array/dict, nesting at the limits; and %d arrays made inside the harness (ay, at, as through &[u8] / &[u64] / &[&str] and a Param array of "
+                "strings, both byte orders) with exactly 2^26 bytes of content (accepted, length field 2^26), the smallest content above (refused) and "
+                "16..50 MiB, judged by length, length field and CRC-32 of a plain specification encoder. Stream 3 (inconsistent, %d cases): Param trees with a wrong declared element / key / value / "
                 "variant type, structs without fields, nesting beyond 64 (and exactly 64), bare and nested inside consistent trees, through every "
                 "flavour. non-trivial = the value contains a container or a text/descriptor leaf, or prefix > 0; distinct = distinct case lines"
-                % (ncat, nmo, n_per_type, len(wg.BAD_SIGS), len(big), sum(1 for c in cases if c["stream"] == "inconsistent")))
+                % (ncat, nmo, n_per_type, len(wg.BAD_SIGS), len(big), ngiant, sum(1 for c in cases if c["stream"] == "inconsistent")))
+
+
+def giant(ctx, exe):
+    """Arrays at the protocol maximum: content of exactly 2^26 bytes must be marshalled (length field 2^26), one element more must be
+    refused and leave nothing; 16..50 MiB in between (all four bytes of the length field in use). The value is made inside the harness
+    from a descriptor (XM, harness/src/bin/wire.rs giant()); the verdict is the specification's, computed by the plain encoder
+    wiregen.giant_spec and compared by length, length field and CRC-32. No extracted function runs on 64 MiB (model-skipped); the
+    limit itself is covered by the theorems over all sizes."""
+    r = ctx.sub_rng("c02-giant")
+    cases = wg.giant_lines(r, "XM")
+    ok, out, err = wg.run_each(exe, [c[4] for c in cases], robust=True, chunk=2)
+    if not ok:
+        ctx.tie_broken("wire harness crashed (giant stream)", err)
+        return 0
+    for (cls, shape, be, api, line), o in zip(cases, out):
+        content, n, crc = wg.giant_spec(shape, be)
+        f = fields(o)
+        ctx.case(("giant", line), nontrivial=True, sample={"case": line, "impl": o[:160], "specification": "content %d bytes, encoding %d bytes, crc32 %s" % (content, n, crc)}
+                 if shape[0] == "as" and be and api == "param" else None)
+        ctx.count("giant:%s:%s" % (cls, "typed/memcpy" if api == "typed" and (shape[0] == "ay" or (shape[0] == "at" and not be)) else api + "/element-wise"))
+        ctx.count("giant:model-skipped")
+        ctx.count("bo:" + ("be" if be else "le"))
+        why = None
+        if f["res"] not in ("ok", "err"):
+            why = "marshalling crashed the process or panicked (%s)" % o[:60]
+        elif content <= wg.MAX_ARRAY:
+            if f["res"] != "ok":
+                why = "an encodable value was refused"
+            elif (int(f["buflen"]), int(f["lenfield"]), f["crc"]) != (n, content, crc):
+                why = "marshalled bytes differ from the D-Bus encoding"
+            elif f["sig"] != shape[0].encode().hex():
+                why = "signature differs from the type's D-Bus signature"
+        elif f["res"] == "ok":
+            why = "a value without a valid encoding was marshalled instead of refused"
+        elif f["buflen"] != "0" or f["sig"] != "-":
+            why = "a refused value left bytes or signature characters in the body"
+        if why:
+            ctx.disagreements_checked += 1
+            ctx.violation(why, {"line": line, "model_line": line, "impl": o[:300], "stream": "giant", "class": cls,
+                                "model_and_spec": "content %d bytes (maximum %d), encoding %d bytes, length field %d, crc32 %s" % (content, wg.MAX_ARRAY, n, content, crc)})
+    return len(cases)
 
 
 def replay(ctx, body):
     d = body["data"]
     exe = vlib.harness_build(["wire"])["wire"]
+    if d.get("stream") == "giant":
+        _, out, _ = vlib.run_lines(exe, [], [d["line"]])
+        print("case :", d["line"])
+        print("spec :", d["model_and_spec"])
+        print("now  :", out[0][:300])
+        print("then :", d["impl"])
+        print("REPRODUCED" if out[0][:300] == d["impl"] else "not reproduced")
+        return 1 if out[0][:300] == d["impl"] else 0
     drv = vlib.ocaml_build("wire")
     line, mline = d["line"], d["model_line"]
     if "...(" in line:
